@@ -53,6 +53,30 @@ def _reads_old(value: ast.AST, cont: str) -> bool:
     return False
 
 
+def _first_write_of_round(pm, fn, st, side, ws) -> bool:
+    """a replacing store is harmless when nothing can be there yet: it is keyed by the variable of an enclosing loop that also encloses every
+    store of the other side (one round per reaction), and it comes before all of them in that round"""
+    if not (isinstance(st, ast.Assign) and isinstance(st.targets[0], ast.Subscript)):
+        return False
+    loops, cur = [], pm.get(st)
+    while cur is not None and cur is not fn:
+        if isinstance(cur, ast.For):
+            loops.append(cur)
+        cur = pm.get(cur)
+    key_names = {n.id for n in ast.walk(st.targets[0].slice) if isinstance(n, ast.Name)}
+    others = [o for s_, _, o in ws if s_ and s_ != side]
+    same_side_acc = [o for s_, a_, o in ws if s_ == side and o is not st]
+    for L in loops:
+        lv = {n.id for n in ast.walk(L.target) if isinstance(n, ast.Name)}
+        if not (lv & key_names):
+            continue
+        inside = lambda o: any(o is x for x in ast.walk(L))  # noqa: E731
+        if others and all(inside(o) and (o.lineno, o.col_offset) > (st.lineno, st.col_offset) for o in others) and not same_side_acc:
+            # the side's own loop must not revisit a key: its iterable is that side's mapping (.items() of a dict: distinct keys)
+            return True
+    return False
+
+
 def overwrite_sites(fi: FuncInfo) -> List[Tuple[str, ast.AST, str]]:
     """[(container, offending store, explanation)]"""
     fn = fi.node
@@ -86,6 +110,8 @@ def overwrite_sites(fi: FuncInfo) -> List[Tuple[str, ast.AST, str]]:
         sides = {s for s, _, _ in ws if s}
         if sides >= {"R", "P"}:
             for s, acc, st in ws:
+                if s and not acc and _first_write_of_round(pm, fn, st, s, ws):
+                    continue
                 if s and not acc:
                     out.append((cont, st, f"`{cont}` receives the reactant side and the product side of a reaction; this store replaces instead of accumulating"))
     return out
